@@ -55,14 +55,16 @@ def link_aware(base):
 FAMILY_MONITORS = (("held", P2.mon_held_writer), ("cd", P2.mon_cd_commit), ("grow", P2.mon_grow),
                    ("bigrec", P2.mon_big_record), ("weaker", P2.mon_weaker_hash), ("emptydecl", P2.mon_empty_declaration),
                    ("dangling", P2.mon_dangling_link_removal), ("linkedbucket", P2.mon_linked_bucket),
-                   ("gonecwd", P2.mon_gone_cwd_link))
+                   ("gonecwd", P2.mon_gone_cwd_link), ("foreigndecl", P2.mon_foreign_declaration),
+                   ("linksize", P2.mon_link_size), ("mixeddecl", P2.mon_mixed_declaration), ("removedkey", P2.mon_removed_key_extraction))
 FAMILIES_FOR = {
-    "C01": [P2.gen_weaker_hash_programs],
+    "C01": [P2.gen_weaker_hash_programs, P2.gen_foreign_declaration_programs],
     "C02": [P2.gen_cd_commit_programs, P2.gen_grow_programs, P2.gen_held_writer_programs],
     "C04": [P2.gen_cd_commit_programs, P2.gen_held_writer_programs],
     "C05": [P2.gen_held_writer_programs, P2.gen_big_record_programs],
     "C07": [P2.gen_held_writer_programs],
     "C08": [P2.gen_grow_programs, P2.gen_empty_declaration_programs],
+    "C03": [P2.gen_link_size_programs],
     "C09": [P2.gen_dangling_link_removal_programs],
     "C10": [P2.gen_linked_bucket_programs],
     "C11": [P2.gen_big_record_programs, P2.gen_grow_programs],
@@ -70,7 +72,9 @@ FAMILIES_FOR = {
     "C14": [P2.gen_held_writer_programs, P2.gen_empty_declaration_programs],
     "C15": [P2.gen_big_record_programs],
     "C16": [P2.gen_cd_commit_programs, P2.gen_grow_programs],
-    "C19": [P2.gen_gone_cwd_link_programs],
+    "C17": [P2.gen_mixed_declaration_programs],
+    "C18": [P2.gen_removed_key_extraction_programs],
+    "C19": [P2.gen_gone_cwd_link_programs, P2.gen_link_size_programs],
     "C20": [P2.gen_big_record_programs, P2.gen_grow_programs],
 }
 
@@ -201,9 +205,10 @@ reg("C09",
                             P.gen_key_matrix_programs(G.Rng(seed + 95)) +
                             P.gen_multihash_removal_programs(G.Rng(seed + 96)) +
                             P.gen_linked_removal_programs()),
-    extra=lambda seed, tier, flavours: LG.leg_skeleton(
+    extra=lambda seed, tier, flavours: merge(LG.leg_skeleton(
         P.gen_shard_programs(G.Rng(seed + 92), N(tier, 4, 16)) +
         P.gen_history_programs(G.Rng(seed + 93), N(tier, 3, 12), maxlen=10, full=True), flavours[0]),
+        LG.leg_fault_injection(LG.fault_cases_removals(), flavours[0], tier)),
     monitors=[lambda rr: (P.mon_shared_removal(rr) if "removals" in rr.prog.tags else
                           P.mon_linked_removal(rr) if "linkrm" in rr.prog.tags else
                           P.mon_expect_reads(rr) if "expect_reads" in rr.prog.tags else P.mon_history(rr))],
